@@ -378,11 +378,24 @@ Proof.
   eapply psim_bind; [apply (consume_byte_ps S hi); exact H8|]. intros s9 H9. cbv beta. ret.
 Qed.
 
+Lemma consume_decl_loop_ps : forall fu1 fu2 s, (fu1 <= fu2)%nat -> SI hi s ->
+  psim (SI hi) Fh (consume_decl_loop T1 fu1 s) (consume_decl_loop T2 fu2 (Fh s)).
+Proof.
+  induction fu1 as [|fu1 IH]; intros fu2 s Hle H; [exact I|].
+  destruct fu2 as [|fu2]; [lia|]. cbn [consume_decl_loop]. cbv zeta.
+  destruct (skip_bytes_F S hi (fun x => negb (x =? 62) && negb (x =? 34) && negb (x =? 39)) s H) as [E H1]. rewrite E.
+  eapply psim_bind; [apply (curr_byte_ps S hi); exact H1|]. intros c _. unfold idf.
+  eapply psim_bind; [apply (advance_ps' S hi); exact H1|]. intros s2 H2. cbv beta.
+  destruct (c =? 62); [apply psim_ret; [exact H2|reflexivity]|].
+  destruct (skip_bytes_F S hi (fun y => negb (y =? c)) s2 H2) as [E3 H3]. rewrite E3.
+  eapply psim_bind; [apply (consume_byte_ps S hi); exact H3|]. intros s4 H4. cbv beta.
+  apply IH; [lia|exact H4].
+Qed.
+
 Lemma consume_decl_ps s : SI hi s -> psim (SI hi) Fh (consume_decl T1 s) (consume_decl T2 (Fh s)).
 Proof.
-  intros H. unfold consume_decl. cbv zeta.
-  destruct (skip_bytes_F S hi (fun x => negb (x =? 62)) s H) as [E H1]. rewrite E.
-  apply (consume_byte_ps S hi). exact H1.
+  intros H. unfold consume_decl. apply consume_decl_loop_ps; [|exact H].
+  pose proof (rest_len_le S hi s H). lia.
 Qed.
 
 Lemma dtd_body_ps loop1 loop2 start s c :
